@@ -615,15 +615,118 @@ fn stale_updater_case(case: u64, rng: &mut Rng, rep: &mut Report) {
     }
 }
 
+/// Two reloads of ONE reader overlap: the first has read meta.json at commit N and is parked at
+/// one of its file opens, commit N+1 completes, a second reload starts (and, where reloads are
+/// serialised, waits), the first resumes. Once both have returned the reader must show N+1 - the
+/// slower reload must not put the older searcher back.
+fn overlapping_reload_case(case: u64, rng: &mut Rng, rep: &mut Report) {
+    let cfg = ExecCfg { threads: 1, merge_policy: false, sort: None, budget_per_thread: 15_000_000 };
+    let mon = MonDir::new(MonCfg { monitors: true, ..Default::default() });
+    let mut ex = match Exec::create(Box::new(mon.clone()), cfg, Some(mon.clone())) {
+        Ok(e) => e,
+        Err(e) => {
+            rep.violation("api-error:create", json!(e));
+            return;
+        }
+    };
+    rep.eval();
+    let mut g = HistGen::new();
+    let nseg = rng.urange(1, 3);
+    for _ in 0..nseg {
+        for _ in 0..rng.urange(1, 5) {
+            ex.step(&Op::Add(g.doc(rng, 3)));
+        }
+        ex.step(&Op::Add(marker(&mut g)));
+        ex.step(&Op::Commit);
+    }
+    let reader: IndexReader = match ex.index.reader_builder().reload_policy(ReloadPolicy::Manual).try_into() {
+        Ok(r) => r,
+        Err(e) => {
+            rep.violation("overlap:reader-failed", json!(e.to_string()));
+            return;
+        }
+    };
+    // one more commit so that the first reload has something new to load
+    ex.step(&Op::Add(marker(&mut g)));
+    ex.step(&Op::Commit);
+    let gate_kind = rng.below(3);
+    // a reload only opens the files of segments it does not hold yet
+    let nth = rng.below(6);
+    let gate = mon.add_gate(OpPred::kind(OpKind::OpenRead).role("reader"), if gate_kind == 0 { 0 } else { nth });
+    let spawn_reload = |name: &str, reader: IndexReader| {
+        std::thread::Builder::new()
+            .name(name.to_string())
+            .spawn(move || reader.reload().map_err(|e| e.to_string()))
+            .expect("spawn")
+    };
+    let first = spawn_reload("tvmon-reader-first", reader.clone());
+    let parked = mon.wait_parked(gate, Duration::from_secs(5));
+    let mut second = None;
+    if parked {
+        ex.step(&Op::DeleteTerm(Pred::Grp(rng.below(3))));
+        ex.step(&Op::Add(marker(&mut g)));
+        ex.step(&Op::Commit);
+        let h = spawn_reload("tvmon-reader-second", reader.clone());
+        // give it the time to finish where reloads are not serialised
+        let t0 = std::time::Instant::now();
+        while !h.is_finished() && t0.elapsed() < Duration::from_millis(300) {
+            std::thread::sleep(Duration::from_millis(2));
+        }
+        rep.count(if h.is_finished() { "overlap:second_reload_finished_first" } else { "overlap:second_reload_waited_for_the_first" }, 1);
+        second = Some(h);
+    }
+    mon.release_gate(gate);
+    mon.release_all_gates();
+    let mut errs: Vec<(String, Value)> = vec![];
+    for (name, h) in [("first", Some(first)), ("second", second)] {
+        if let Some(h) = h {
+            match h.join() {
+                Ok(Ok(())) => {}
+                Ok(Err(e)) => errs.push((format!("overlap:{name}-reload-failed"), json!(e))),
+                Err(_) => errs.push((format!("overlap:{name}-reload-panicked"), json!(null))),
+            }
+        }
+    }
+    rep.count(if parked { "overlap:first_reload_parked" } else { "overlap:gate_not_reached" }, 1);
+    let commits = ex.model.commits.clone();
+    let last = commits.len() - 1;
+    if errs.is_empty() {
+        match live_ids(&reader.searcher()) {
+            Err(e) => errs.push(("overlap:search-failed".into(), json!(e))),
+            Ok(ids) => {
+                let m = match_commits(&commits, &ids);
+                if m.is_empty() {
+                    errs.push(("overlap:observed-state-matches-no-commit".into(), json!(ids.iter().take(20).collect::<Vec<_>>())));
+                } else if parked && *m.last().unwrap() != last {
+                    errs.push((
+                        "overlap:reader-shows-an-older-commit-after-both-reloads-returned".into(),
+                        json!({"observed_commit": m, "last_commit": last, "gate": if gate_kind == 0 { "open#0".to_string() } else { format!("open#{nth}") }}),
+                    ));
+                }
+            }
+        }
+    }
+    for v in mon.take_violations() {
+        errs.push((format!("overlap:{}", v.sig), v.detail));
+    }
+    for (sig, d) in errs {
+        rep.violation(sig, json!({"case": case, "detail": d}));
+    }
+    if parked {
+        rep.nontrivial(format!("overlap:nseg={nseg}:open#{}", if gate_kind == 0 { 0 } else { nth }));
+    }
+}
+
 fn main() {
     let ctx = Ctx::from_env("C05", "exploration");
     let mut rep = run_cases(&ctx, "stress", ctx.scale(80, 3000) as u64, stress_case);
     rep.merge(run_cases(&ctx, "forced", ctx.scale(80, 4000) as u64, forced_case));
     rep.merge(run_cases(&ctx, "stale-updater", ctx.scale(40, 2000) as u64, stale_updater_case));
+    rep.merge(run_cases(&ctx, "overlap", ctx.scale(40, 2000) as u64, overlapping_reload_case));
     simple_finish(
         &ctx,
         rep,
-        "case = (a) one stress run: a writer producing 5-25 commits (each adding a marker document so every commit is a distinct id set) with deletes, merges, GC, rollbacks and final shutdown, while 1-3 reader threads (same Index, second Index on the same directory, OnCommitWithDelay) reload and observe, and hold searchers that are re-fingerprinted during the run and after the writer is gone; every observation must equal one committed model state, not older than the commits completed before the reload started, not newer than those started, monotone per reader; on MonDir, RamDirectory and MmapDirectory. (b) one forced schedule: a loading reader parked between reading meta.json and opening its k-th segment file while the writer commits, merges and GCs. (c) one forced schedule: the segment updater of a rolled-back writer parked inside end_merge until the replacement writer has committed; reloads before and after it resumes must show the newest commit. Non-trivial = observations overlapped a commit and >=2 distinct commits were seen / the reader was actually parked.",
+        "case = (a) one stress run: a writer producing 5-25 commits (each adding a marker document so every commit is a distinct id set) with deletes, merges, GC, rollbacks and final shutdown, while 1-3 reader threads (same Index, second Index on the same directory, OnCommitWithDelay) reload and observe, and hold searchers that are re-fingerprinted during the run and after the writer is gone; every observation must equal one committed model state, not older than the commits completed before the reload started, not newer than those started, monotone per reader; on MonDir, RamDirectory and MmapDirectory. (b) one forced schedule: a loading reader parked between reading meta.json and opening its k-th segment file while the writer commits, merges and GCs. (c) one forced schedule: the segment updater of a rolled-back writer parked inside end_merge until the replacement writer has committed; reloads before and after it resumes must show the newest commit. (d) two overlapping reloads of one reader, the older one parked while a newer commit is loaded: afterwards the reader shows the newer commit. Non-trivial = observations overlapped a commit and >=2 distinct commits were seen / the reader was actually parked.",
         ctx.scale(30, 60),
         &["commit identification relies on unique document ids and a marker document per commit", "every reader flavour, including auto-reload mixed with manual reloads, must be monotone (DESIGN.md §7 C05, revised scope)"],
     );
